@@ -1,1 +1,754 @@
-(* placeholder: proofs are delivered into this file *)
+(* Proofs for C16: the C++ base64 codec model (Base64Model) against RFC 4648 (Base64Spec).
+   Structure:
+     1. sweeps over the generated tables (tab64 / hex_tab against b64_char / b64_val)
+     2. bit manipulation reduced to div/mod arithmetic
+     3. encoder fold = encode
+     4. decode s = Some k -> base64_to_hex s = DecOk k   (model refines the spec decoder)
+     5. decode (encode bs) = Some bs
+     6. validator characterisation
+     7. the five required lemmas *)
+From Coq Require Import NArith ZArith List Bool Arith Lia ZifyNat.
+From Wencry Require Import Bytes Base64Spec Base64Model.
+From Wencry.Gen Require Import B64Tab.
+Import ListNotations.
+Local Open Scope N_scope.
+
+Local Ltac Zify.zify_post_hook ::= Z.to_euclidean_division_equations.
+
+(* ------------------------------------------------------------------ *)
+(* 1. sweeps                                                           *)
+
+Lemma in_all_bytes b : b < 256 -> In b all_bytes.
+Proof.
+  intros H. unfold all_bytes. apply in_map_iff. exists (N.to_nat b). split.
+  - apply N2Nat.id.
+  - apply in_seq. lia.
+Qed.
+
+Lemma sweep_bytes (P : N -> bool) :
+  forallb P all_bytes = true -> forall b, b < 256 -> P b = true.
+Proof. intros H b Hb. rewrite forallb_forall in H. apply H, in_all_bytes, Hb. Qed.
+
+Lemma tab64_char i : i < 64 -> tab64 i = b64_char i.
+Proof.
+  intros H.
+  assert (S : forallb (fun i => (64 <=? i) || (tab64 i =? b64_char i)) all_bytes = true)
+    by (vm_compute; reflexivity).
+  pose proof (sweep_bytes _ S i ltac:(lia)) as E. cbv beta in E.
+  apply orb_true_iff in E. destruct E as [E|E].
+  - apply N.leb_le in E. lia.
+  - apply N.eqb_eq, E.
+Qed.
+
+Lemma b64_val_char i : i < 64 -> b64_val (b64_char i) = Some i.
+Proof.
+  intros H.
+  assert (S : forallb (fun i => (64 <=? i) ||
+                match b64_val (b64_char i) with Some v => v =? i | None => false end)
+                all_bytes = true) by (vm_compute; reflexivity).
+  pose proof (sweep_bytes _ S i ltac:(lia)) as E. cbv beta in E.
+  apply orb_true_iff in E. destruct E as [E|E].
+  - apply N.leb_le in E. lia.
+  - destruct (b64_val (b64_char i)) as [v|]; [|discriminate].
+    apply N.eqb_eq in E. now subst.
+Qed.
+
+Definition is_some (o : option N) : bool := match o with Some _ => true | None => false end.
+
+(* both are the same ASCII ranges; above 127 every range test fails *)
+Lemma is_base64_val c : is_base64 c = is_some (b64_val c).
+Proof.
+  destruct (N.lt_ge_cases c 128) as [L|G].
+  - assert (S : forallb (fun c => Bool.eqb (is_base64 c) (is_some (b64_val c))) all_bytes = true)
+      by (vm_compute; reflexivity).
+    pose proof (sweep_bytes _ S c ltac:(lia)) as E. cbv beta in E.
+    apply Bool.eqb_prop, E.
+  - assert (H1 : (c <=? 57) = false) by (apply N.leb_gt; lia).
+    assert (H2 : (c <=? 90) = false) by (apply N.leb_gt; lia).
+    assert (H3 : (c <=? 122) = false) by (apply N.leb_gt; lia).
+    assert (H4 : (c =? 43) = false) by (apply N.eqb_neq; lia).
+    assert (H5 : (c =? 47) = false) by (apply N.eqb_neq; lia).
+    unfold is_base64, b64_val. rewrite H1, H2, H3, H4, H5, !andb_false_r. reflexivity.
+Qed.
+
+Lemma is_base64_iff c : is_base64 c = true <-> exists v, b64_val c = Some v.
+Proof.
+  rewrite is_base64_val. destruct (b64_val c) as [v|]; cbn [is_some]; split.
+  - intros _. now exists v.
+  - reflexivity.
+  - discriminate.
+  - intros [v H]. discriminate.
+Qed.
+
+Lemma b64_val_lt128 c v : b64_val c = Some v -> c < 128.
+Proof.
+  intros H. destruct (N.lt_ge_cases c 128) as [L|G]; [exact L|exfalso].
+  assert (E : is_base64 c = true) by (apply is_base64_iff; now exists v).
+  assert (H1 : (c <=? 57) = false) by (apply N.leb_gt; lia).
+  assert (H2 : (c <=? 90) = false) by (apply N.leb_gt; lia).
+  assert (H3 : (c <=? 122) = false) by (apply N.leb_gt; lia).
+  assert (H4 : (c =? 43) = false) by (apply N.eqb_neq; lia).
+  assert (H5 : (c =? 47) = false) by (apply N.eqb_neq; lia).
+  unfold is_base64 in E. rewrite H1, H2, H3, H4, H5, !andb_false_r in E. discriminate.
+Qed.
+
+(* the decode table agrees with RFC 4648 on every alphabet character *)
+Lemma hex_tab_val c v :
+  b64_val c = Some v -> nthN hex_tab c 0 = v /\ v < 64 /\ c < 128 /\ (c =? 61) = false.
+Proof.
+  intros H. pose proof (b64_val_lt128 _ _ H) as L.
+  assert (S : forallb (fun c => match b64_val c with
+                                | Some v => (nthN hex_tab c 0 =? v) && (v <? 64) && negb (c =? 61)
+                                | None => true end) all_bytes = true)
+    by (vm_compute; reflexivity).
+  pose proof (sweep_bytes _ S c ltac:(lia)) as E. cbv beta in E. rewrite H in E.
+  apply andb_true_iff in E. destruct E as [E E3].
+  apply andb_true_iff in E. destruct E as [E1 E2].
+  apply N.eqb_eq in E1. apply N.ltb_lt in E2. apply negb_true_iff in E3.
+  repeat split; assumption.
+Qed.
+
+(* ------------------------------------------------------------------ *)
+(* 2. bit manipulation as arithmetic                                   *)
+
+Lemma lor_disj_add a b k : a mod 2 ^ k = 0 -> b < 2 ^ k -> N.lor a b = a + b.
+Proof.
+  intros Ha Hb.
+  assert (Z : N.land a b = 0).
+  { apply N.bits_inj. intros n. rewrite N.land_spec, N.bits_0.
+    destruct (N.lt_ge_cases n k) as [L|G].
+    - rewrite <- (N.mod_pow2_bits_low a k n L), Ha, N.bits_0. reflexivity.
+    - rewrite <- (N.mod_small b (2 ^ k) Hb), (N.mod_pow2_bits_high b k n G).
+      apply andb_false_r. }
+  rewrite (N.add_nocarry_lxor _ _ Z). symmetry. apply N.lxor_lor, Z.
+Qed.
+
+Lemma sr_land h k n : N.land (N.shiftr h k) (N.ones n) = (h / 2 ^ k) mod 2 ^ n.
+Proof. now rewrite N.land_ones, N.shiftr_div_pow2. Qed.
+
+(* the 24-bit accumulator of the encoder *)
+Lemma enc_pack1 a : N.lor 0 (N.shiftl a 16) = a * 65536.
+Proof. rewrite N.lor_0_l, N.shiftl_mul_pow2. reflexivity. Qed.
+
+Lemma enc_pack2 a b : b < 256 ->
+  N.lor (N.lor 0 (N.shiftl a 16)) (N.shiftl b 8) = a * 65536 + b * 256.
+Proof.
+  intros Hb. rewrite enc_pack1, N.shiftl_mul_pow2. change (2 ^ 8) with 256.
+  apply (lor_disj_add _ _ 16); change (2 ^ 16) with 65536; lia.
+Qed.
+
+Lemma enc_pack3 a b c : b < 256 -> c < 256 ->
+  N.lor (N.lor (N.lor 0 (N.shiftl a 16)) (N.shiftl b 8)) (N.shiftl c 0)
+  = a * 65536 + b * 256 + c.
+Proof.
+  intros Hb Hc. rewrite enc_pack2 by exact Hb. rewrite N.shiftl_0_r.
+  apply (lor_disj_add _ _ 8); change (2 ^ 8) with 256; lia.
+Qed.
+
+Lemma sym_eq h k : N.land (N.shiftr h k) 63 = (h / 2 ^ k) mod 64.
+Proof. change 63 with (N.ones 6). rewrite sr_land. reflexivity. Qed.
+
+Lemma byte_eq h k : N.land (N.shiftr h k) 255 = (h / 2 ^ k) mod 256.
+Proof. change 255 with (N.ones 8). rewrite sr_land. reflexivity. Qed.
+
+(* the 24-bit accumulator of the decoder *)
+Lemma dec_pack1 w : N.lor 0 (N.shiftl w 18) = w * 262144.
+Proof. rewrite N.lor_0_l, N.shiftl_mul_pow2. reflexivity. Qed.
+
+Lemma dec_pack2 w x : x < 64 ->
+  N.lor (N.lor 0 (N.shiftl w 18)) (N.shiftl x 12) = w * 262144 + x * 4096.
+Proof.
+  intros Hx. rewrite dec_pack1, N.shiftl_mul_pow2. change (2 ^ 12) with 4096.
+  apply (lor_disj_add _ _ 18); change (2 ^ 18) with 262144; lia.
+Qed.
+
+Lemma dec_pack3 w x y : x < 64 -> y < 64 ->
+  N.lor (N.lor (N.lor 0 (N.shiftl w 18)) (N.shiftl x 12)) (N.shiftl y 6)
+  = w * 262144 + x * 4096 + y * 64.
+Proof.
+  intros Hx Hy. rewrite dec_pack2 by exact Hx. rewrite N.shiftl_mul_pow2. change (2 ^ 6) with 64.
+  apply (lor_disj_add _ _ 12); change (2 ^ 12) with 4096; lia.
+Qed.
+
+Lemma dec_pack4 w x y z : x < 64 -> y < 64 -> z < 64 ->
+  N.lor (N.lor (N.lor (N.lor 0 (N.shiftl w 18)) (N.shiftl x 12)) (N.shiftl y 6)) (N.shiftl z 0)
+  = w * 262144 + x * 4096 + y * 64 + z.
+Proof.
+  intros Hx Hy Hz. rewrite dec_pack3 by assumption. rewrite N.shiftl_0_r.
+  apply (lor_disj_add _ _ 6); change (2 ^ 6) with 64; lia.
+Qed.
+
+(* ------------------------------------------------------------------ *)
+(* 3. the encoder loop computes [encode]                               *)
+
+Lemma list_ind3 {A} (P : list A -> Prop) :
+  P [] -> (forall a, P [a]) -> (forall a b, P [a; b]) ->
+  (forall a b c r, P r -> P (a :: b :: c :: r)) -> forall l, P l.
+Proof.
+  intros H0 H1 H2 H3.
+  assert (K : forall l, P l /\ (forall a, P (a :: l)) /\ (forall a b, P (a :: b :: l))).
+  { induction l as [|x l [IH0 [IH1 IH2]]]; repeat split; auto. }
+  intros l. apply K.
+Qed.
+
+Lemma bytesb_cons a l : bytesb (a :: l) = true <-> a < 256 /\ bytesb l = true.
+Proof.
+  unfold bytesb. cbn [forallb]. unfold byte_ok at 1.
+  rewrite andb_true_iff, N.ltb_lt. reflexivity.
+Qed.
+
+Definition enc_fin (st : N * N * list N) : list N :=
+  match st with
+  | (h, j, out) =>
+      let sym q := tab64 (N.land (N.shiftr h (6 * (3 - q))) 63) in
+      let out := if j =? 1 then out ++ [sym 0; sym 1; 61; 61]
+                 else if j =? 2 then out ++ [sym 0; sym 1; sym 2; 61]
+                 else out in
+      out ++ [0]
+  end.
+
+Lemma hex_to_base64_fin bs : hex_to_base64 bs = enc_fin (fold_left enc_step bs (0, 0, [])).
+Proof. reflexivity. Qed.
+
+Lemma enc_step_0 h out x : enc_step (h, 0, out) x = (N.lor h (N.shiftl x 16), 1, out).
+Proof. reflexivity. Qed.
+Lemma enc_step_1 h out x : enc_step (h, 1, out) x = (N.lor h (N.shiftl x 8), 2, out).
+Proof. reflexivity. Qed.
+Lemma enc_step_2 h out x :
+  enc_step (h, 2, out) x =
+  (0, 0, out ++ [tab64 (N.land (N.shiftr (N.lor h (N.shiftl x 0)) 18) 63);
+                 tab64 (N.land (N.shiftr (N.lor h (N.shiftl x 0)) 12) 63);
+                 tab64 (N.land (N.shiftr (N.lor h (N.shiftl x 0)) 6) 63);
+                 tab64 (N.land (N.shiftr (N.lor h (N.shiftl x 0)) 0) 63)]).
+Proof. reflexivity. Qed.
+
+Lemma enc_fin_0 h out : enc_fin (h, 0, out) = out ++ [0].
+Proof. reflexivity. Qed.
+Lemma enc_fin_1 h out :
+  enc_fin (h, 1, out) =
+  (out ++ [tab64 (N.land (N.shiftr h 18) 63); tab64 (N.land (N.shiftr h 12) 63); 61; 61]) ++ [0].
+Proof. reflexivity. Qed.
+Lemma enc_fin_2 h out :
+  enc_fin (h, 2, out) =
+  (out ++ [tab64 (N.land (N.shiftr h 18) 63); tab64 (N.land (N.shiftr h 12) 63);
+           tab64 (N.land (N.shiftr h 6) 63); 61]) ++ [0].
+Proof. reflexivity. Qed.
+
+Lemma enc_sym h k i : (h / 2 ^ k) mod 64 = i -> tab64 (N.land (N.shiftr h k) 63) = b64_char i.
+Proof.
+  intros E. rewrite sym_eq, E. apply tab64_char. subst i. apply N.mod_lt. discriminate.
+Qed.
+
+Lemma enc_group a b c out : a < 256 -> b < 256 -> c < 256 ->
+  fold_left enc_step [a; b; c] (0, 0, out) =
+  (0, 0, out ++ [b64_char (a / 4); b64_char ((a mod 4) * 16 + b / 16);
+                 b64_char ((b mod 16) * 4 + c / 64); b64_char (c mod 64)]).
+Proof.
+  intros Ha Hb Hc. cbn [fold_left].
+  rewrite enc_step_0, enc_step_1, enc_step_2, enc_pack3 by assumption.
+  rewrite (enc_sym _ 18 (a / 4)) by (change (2 ^ 18) with 262144; lia).
+  rewrite (enc_sym _ 12 ((a mod 4) * 16 + b / 16)) by (change (2 ^ 12) with 4096; lia).
+  rewrite (enc_sym _ 6 ((b mod 16) * 4 + c / 64)) by (change (2 ^ 6) with 64; lia).
+  rewrite (enc_sym _ 0 (c mod 64)) by (change (2 ^ 0) with 1; lia).
+  reflexivity.
+Qed.
+
+Lemma enc_fold bs : bytesb bs = true ->
+  forall out, enc_fin (fold_left enc_step bs (0, 0, out)) = out ++ encode bs ++ [0].
+Proof.
+  induction bs as [|a|a b|a b c r IH] using list_ind3; intros Hb out.
+  - reflexivity.
+  - apply bytesb_cons in Hb. destruct Hb as [Ha _].
+    cbn [fold_left encode]. rewrite enc_step_0, enc_fin_1, enc_pack1.
+    rewrite (enc_sym _ 18 (a / 4)) by (change (2 ^ 18) with 262144; lia).
+    rewrite (enc_sym _ 12 ((a mod 4) * 16)) by (change (2 ^ 12) with 4096; lia).
+    rewrite <- app_assoc. reflexivity.
+  - apply bytesb_cons in Hb. destruct Hb as [Ha Hb].
+    apply bytesb_cons in Hb. destruct Hb as [Hb _].
+    cbn [fold_left encode]. rewrite enc_step_0, enc_step_1, enc_fin_2, enc_pack2 by assumption.
+    rewrite (enc_sym _ 18 (a / 4)) by (change (2 ^ 18) with 262144; lia).
+    rewrite (enc_sym _ 12 ((a mod 4) * 16 + b / 16)) by (change (2 ^ 12) with 4096; lia).
+    rewrite (enc_sym _ 6 ((b mod 16) * 4)) by (change (2 ^ 6) with 64; lia).
+    rewrite <- app_assoc. reflexivity.
+  - apply bytesb_cons in Hb. destruct Hb as [Ha Hb].
+    apply bytesb_cons in Hb. destruct Hb as [Hb Hc].
+    apply bytesb_cons in Hc. destruct Hc as [Hc Hr].
+    change (fold_left enc_step (a :: b :: c :: r) (0, 0, out))
+      with (fold_left enc_step r (fold_left enc_step [a; b; c] (0, 0, out))).
+    rewrite enc_group by assumption. rewrite (IH Hr). cbn [encode].
+    rewrite <- !app_assoc. reflexivity.
+Qed.
+
+Lemma C16_encode_is_rfc4648_proof : forall bs,
+  bytesb bs = true -> hex_to_base64 bs = encode bs ++ [0%N].
+Proof.
+  intros bs Hb. rewrite hex_to_base64_fin, (enc_fold bs Hb). reflexivity.
+Qed.
+
+Example C16_encode_nonvacuous :
+  bytesb [77; 97; 110; 255; 0] = true /\
+  hex_to_base64 [77; 97; 110; 255; 0] = [84; 87; 70; 117; 47; 119; 65; 61; 0].
+Proof. split; vm_compute; reflexivity. Qed.
+
+(* ------------------------------------------------------------------ *)
+(* 4. the decoder loop refines [decode]                                *)
+
+Lemma list_ind4 {A} (P : list A -> Prop) :
+  P [] -> (forall a, P [a]) -> (forall a b, P [a; b]) -> (forall a b c, P [a; b; c]) ->
+  (forall a b c d r, P r -> P (a :: b :: c :: d :: r)) -> forall l, P l.
+Proof.
+  intros H0 H1 H2 H3 H4.
+  assert (K : forall l, P l /\ (forall a, P (a :: l)) /\ (forall a b, P (a :: b :: l))
+                        /\ (forall a b c, P (a :: b :: c :: l))).
+  { induction l as [|x l [IH0 [IH1 [IH2 IH3]]]]; repeat split; auto. }
+  intros l. apply K.
+Qed.
+
+Definition dec_fin (st : option (N * N * N * list N)) : dec_result :=
+  match st with
+  | Some (tail, j, h, out) =>
+      DecOk (if tail =? 2 then out ++ [N.land (N.shiftr h 16) 255]
+             else if tail =? 1 then out ++ [N.land (N.shiftr h 16) 255; N.land (N.shiftr h 8) 255]
+             else out)
+  | None => DecOOB
+  end.
+
+Lemma base64_to_hex_fin s :
+  base64_to_hex s =
+  if existsb (fun c => c =? 255) s then DecFalse
+  else if existsb (fun c => (128 <=? c) && negb (c =? 61)) s then DecOOB
+  else dec_fin (fold_left dec_step s (Some (0, 0, 0, []))).
+Proof. reflexivity. Qed.
+
+Lemma dec_step_pad0 j h out : dec_step (Some (0, j, h, out)) 61 = Some (1, j, h, out).
+Proof. reflexivity. Qed.
+Lemma dec_step_pad1 j h out : dec_step (Some (1, j, h, out)) 61 = Some (2, j, h, out).
+Proof. reflexivity. Qed.
+
+Lemma dec_step_0 c v t h out : b64_val c = Some v ->
+  dec_step (Some (t, 0, h, out)) c = Some (t, 1, N.lor h (N.shiftl v 18), out).
+Proof.
+  intros H. destruct (hex_tab_val _ _ H) as [E [_ [_ N61]]].
+  unfold dec_step. rewrite N61, E. reflexivity.
+Qed.
+Lemma dec_step_1 c v t h out : b64_val c = Some v ->
+  dec_step (Some (t, 1, h, out)) c = Some (t, 2, N.lor h (N.shiftl v 12), out).
+Proof.
+  intros H. destruct (hex_tab_val _ _ H) as [E [_ [_ N61]]].
+  unfold dec_step. rewrite N61, E. reflexivity.
+Qed.
+Lemma dec_step_2 c v t h out : b64_val c = Some v ->
+  dec_step (Some (t, 2, h, out)) c = Some (t, 3, N.lor h (N.shiftl v 6), out).
+Proof.
+  intros H. destruct (hex_tab_val _ _ H) as [E [_ [_ N61]]].
+  unfold dec_step. rewrite N61, E. reflexivity.
+Qed.
+Lemma dec_step_3 c v t h out : b64_val c = Some v ->
+  dec_step (Some (t, 3, h, out)) c =
+  Some (t, 0, 0, out ++ [N.land (N.shiftr (N.lor h (N.shiftl v 0)) 16) 255;
+                         N.land (N.shiftr (N.lor h (N.shiftl v 0)) 8) 255;
+                         N.land (N.shiftr (N.lor h (N.shiftl v 0)) 0) 255]).
+Proof.
+  intros H. destruct (hex_tab_val _ _ H) as [E [_ [_ N61]]].
+  unfold dec_step. rewrite N61, E. reflexivity.
+Qed.
+
+Lemma dec_fin_0 j h out : dec_fin (Some (0, j, h, out)) = DecOk out.
+Proof. reflexivity. Qed.
+Lemma dec_fin_1 j h out :
+  dec_fin (Some (1, j, h, out)) =
+  DecOk (out ++ [N.land (N.shiftr h 16) 255; N.land (N.shiftr h 8) 255]).
+Proof. reflexivity. Qed.
+Lemma dec_fin_2 j h out :
+  dec_fin (Some (2, j, h, out)) = DecOk (out ++ [N.land (N.shiftr h 16) 255]).
+Proof. reflexivity. Qed.
+
+Lemma dec_byte h k i : (h / 2 ^ k) mod 256 = i -> N.land (N.shiftr h k) 255 = i.
+Proof. intros E. rewrite byte_eq. exact E. Qed.
+
+Lemma dec_group w x y z w' x' y' z' t out :
+  b64_val w = Some w' -> b64_val x = Some x' -> b64_val y = Some y' -> b64_val z = Some z' ->
+  fold_left dec_step [w; x; y; z] (Some (t, 0, 0, out)) =
+  Some (t, 0, 0, out ++ [w' * 4 + x' / 16; (x' mod 16) * 16 + y' / 4; (y' mod 4) * 64 + z']).
+Proof.
+  intros Hw Hx Hy Hz.
+  destruct (hex_tab_val _ _ Hw) as [_ [Bw _]]. destruct (hex_tab_val _ _ Hx) as [_ [Bx _]].
+  destruct (hex_tab_val _ _ Hy) as [_ [By _]]. destruct (hex_tab_val _ _ Hz) as [_ [Bz _]].
+  cbn [fold_left].
+  rewrite (dec_step_0 _ _ _ _ _ Hw), (dec_step_1 _ _ _ _ _ Hx),
+          (dec_step_2 _ _ _ _ _ Hy), (dec_step_3 _ _ _ _ _ Hz).
+  rewrite dec_pack4 by assumption.
+  rewrite (dec_byte _ 16 (w' * 4 + x' / 16)) by (change (2 ^ 16) with 65536; lia).
+  rewrite (dec_byte _ 8 ((x' mod 16) * 16 + y' / 4)) by (change (2 ^ 8) with 256; lia).
+  rewrite (dec_byte _ 0 ((y' mod 4) * 64 + z')) by (change (2 ^ 0) with 1; lia).
+  reflexivity.
+Qed.
+
+Lemma decode_cons4 w x y z a r :
+  decode (w :: x :: y :: z :: a :: r) =
+  match b64_val w, b64_val x, b64_val y, b64_val z, decode (a :: r) with
+  | Some w', Some x', Some y', Some z', Some t =>
+      Some ([w' * 4 + x' / 16; (x' mod 16) * 16 + y' / 4; (y' mod 4) * 64 + z'] ++ t)
+  | _, _, _, _, _ => None
+  end.
+Proof. reflexivity. Qed.
+
+Lemma decode_refined s : forall k, decode s = Some k ->
+  Forall (fun c => c < 128) s /\
+  forall out, dec_fin (fold_left dec_step s (Some (0, 0, 0, out))) = DecOk (out ++ k).
+Proof.
+  induction s as [|a|a b|a b c|w x y z r IH] using list_ind4; intros k H.
+  - injection H as <-. split; [constructor|]. intros out. rewrite app_nil_r. reflexivity.
+  - discriminate H.
+  - discriminate H.
+  - discriminate H.
+  - destruct r as [|a r].
+    + clear IH. cbn [decode] in H. unfold pad_char in H.
+      destruct (b64_val w) as [w'|] eqn:Hw; [|discriminate H].
+      destruct (b64_val x) as [x'|] eqn:Hx; [|discriminate H].
+      destruct (hex_tab_val _ _ Hw) as [_ [Bw [Lw _]]].
+      destruct (hex_tab_val _ _ Hx) as [_ [Bx [Lx _]]].
+      destruct ((y =? 61) && (z =? 61)) eqn:Epad.
+      * apply andb_true_iff in Epad. destruct Epad as [Ey Ez].
+        apply N.eqb_eq in Ey. apply N.eqb_eq in Ez. subst y z. injection H as <-.
+        split; [repeat constructor; assumption|]. intros out. cbn [fold_left].
+        rewrite (dec_step_0 _ _ _ _ _ Hw), (dec_step_1 _ _ _ _ _ Hx), dec_step_pad0, dec_step_pad1.
+        rewrite dec_fin_2, dec_pack2 by assumption.
+        rewrite (dec_byte _ 16 (w' * 4 + x' / 16)) by (change (2 ^ 16) with 65536; lia).
+        reflexivity.
+      * destruct (b64_val y) as [y'|] eqn:Hy; [|discriminate H].
+        destruct (hex_tab_val _ _ Hy) as [_ [By [Ly _]]].
+        destruct (z =? 61) eqn:Ez.
+        -- apply N.eqb_eq in Ez. subst z. injection H as <-.
+           split; [repeat constructor; assumption|]. intros out. cbn [fold_left].
+           rewrite (dec_step_0 _ _ _ _ _ Hw), (dec_step_1 _ _ _ _ _ Hx),
+                   (dec_step_2 _ _ _ _ _ Hy), dec_step_pad0.
+           rewrite dec_fin_1, dec_pack3 by assumption.
+           rewrite (dec_byte _ 16 (w' * 4 + x' / 16)) by (change (2 ^ 16) with 65536; lia).
+           rewrite (dec_byte _ 8 ((x' mod 16) * 16 + y' / 4)) by (change (2 ^ 8) with 256; lia).
+           reflexivity.
+        -- destruct (b64_val z) as [z'|] eqn:Hz; [|discriminate H].
+           destruct (hex_tab_val _ _ Hz) as [_ [Bz [Lz _]]]. injection H as <-.
+           split; [repeat constructor; assumption|]. intros out.
+           rewrite (dec_group _ _ _ _ _ _ _ _ _ _ Hw Hx Hy Hz). apply dec_fin_0.
+    + rewrite decode_cons4 in H.
+      destruct (b64_val w) as [w'|] eqn:Hw; [|discriminate H].
+      destruct (b64_val x) as [x'|] eqn:Hx; [|discriminate H].
+      destruct (b64_val y) as [y'|] eqn:Hy; [|discriminate H].
+      destruct (b64_val z) as [z'|] eqn:Hz; [|discriminate H].
+      destruct (decode (a :: r)) as [t|] eqn:Hr; [|discriminate H].
+      injection H as <-.
+      destruct (hex_tab_val _ _ Hw) as [_ [_ [Lw _]]]. destruct (hex_tab_val _ _ Hx) as [_ [_ [Lx _]]].
+      destruct (hex_tab_val _ _ Hy) as [_ [_ [Ly _]]]. destruct (hex_tab_val _ _ Hz) as [_ [_ [Lz _]]].
+      destruct (IH t eq_refl) as [IHF IHD].
+      split; [repeat (constructor; [assumption|]); exact IHF|]. intros out.
+      change (fold_left dec_step (w :: x :: y :: z :: a :: r) (Some (0, 0, 0, out)))
+        with (fold_left dec_step (a :: r) (fold_left dec_step [w; x; y; z] (Some (0, 0, 0, out)))).
+      rewrite (dec_group _ _ _ _ _ _ _ _ _ _ Hw Hx Hy Hz), IHD, <- app_assoc. reflexivity.
+Qed.
+
+Lemma no_255 s : Forall (fun c => c < 128) s -> existsb (fun c => c =? 255) s = false.
+Proof.
+  induction 1 as [|c s Hc _ IH]; [reflexivity|]. cbn [existsb]. rewrite IH, orb_false_r.
+  apply N.eqb_neq. lia.
+Qed.
+
+Lemma no_oob s : Forall (fun c => c < 128) s ->
+  existsb (fun c => (128 <=? c) && negb (c =? 61)) s = false.
+Proof.
+  induction 1 as [|c s Hc _ IH]; [reflexivity|]. cbn [existsb]. rewrite IH, orb_false_r.
+  apply andb_false_iff. left. apply N.leb_gt, Hc.
+Qed.
+
+(* whenever RFC 4648 decoding succeeds, the C++ decoder returns the same bytes *)
+Lemma decode_model s k : decode s = Some k -> base64_to_hex s = DecOk k.
+Proof.
+  intros H. destruct (decode_refined s k H) as [F D].
+  rewrite base64_to_hex_fin, (no_255 s F), (no_oob s F). apply (D []).
+Qed.
+
+Lemma decode_pad2 w x w' x' :
+  b64_val w = Some w' -> b64_val x = Some x' ->
+  decode [w; x; 61; 61] = Some [w' * 4 + x' / 16].
+Proof. intros Hw Hx. cbn [decode]. rewrite Hw, Hx. reflexivity. Qed.
+
+Lemma decode_pad1 w x y w' x' y' :
+  b64_val w = Some w' -> b64_val x = Some x' -> b64_val y = Some y' ->
+  decode [w; x; y; 61] = Some [w' * 4 + x' / 16; (x' mod 16) * 16 + y' / 4].
+Proof.
+  intros Hw Hx Hy. destruct (hex_tab_val _ _ Hy) as [_ [_ [_ Ny]]].
+  cbn [decode]. unfold pad_char. rewrite Hw, Hx, Hy, Ny. reflexivity.
+Qed.
+
+Lemma decode_full w x y z w' x' y' z' :
+  b64_val w = Some w' -> b64_val x = Some x' -> b64_val y = Some y' -> b64_val z = Some z' ->
+  decode [w; x; y; z] =
+  Some [w' * 4 + x' / 16; (x' mod 16) * 16 + y' / 4; (y' mod 4) * 64 + z'].
+Proof.
+  intros Hw Hx Hy Hz. destruct (hex_tab_val _ _ Hy) as [_ [_ [_ Ny]]].
+  destruct (hex_tab_val _ _ Hz) as [_ [_ [_ Nz]]].
+  cbn [decode]. unfold pad_char. rewrite Hw, Hx, Hy, Hz, Ny, Nz. reflexivity.
+Qed.
+
+(* ------------------------------------------------------------------ *)
+(* 5. RFC 4648 round trip at the specification level                   *)
+
+Lemma encode_cons a r : exists t, encode (a :: r) = b64_char (a / 4) :: t.
+Proof.
+  destruct r as [|b [|c r]]; cbn [encode app]; eexists; reflexivity.
+Qed.
+
+Lemma decode_encode bs : bytesb bs = true -> decode (encode bs) = Some bs.
+Proof.
+  induction bs as [|a|a b|a b c r IH] using list_ind3; intros Hb.
+  - reflexivity.
+  - apply bytesb_cons in Hb. destruct Hb as [Ha _]. cbn [encode]. unfold pad_char.
+    rewrite (decode_pad2 _ _ (a / 4) ((a mod 4) * 16))
+      by (apply b64_val_char; lia).
+    f_equal. f_equal. lia.
+  - apply bytesb_cons in Hb. destruct Hb as [Ha Hb].
+    apply bytesb_cons in Hb. destruct Hb as [Hb _]. cbn [encode]. unfold pad_char.
+    rewrite (decode_pad1 _ _ _ (a / 4) ((a mod 4) * 16 + b / 16) ((b mod 16) * 4))
+      by (apply b64_val_char; lia).
+    f_equal. f_equal; [lia|]. f_equal. lia.
+  - apply bytesb_cons in Hb. destruct Hb as [Ha Hb].
+    apply bytesb_cons in Hb. destruct Hb as [Hb Hc].
+    apply bytesb_cons in Hc. destruct Hc as [Hc Hr].
+    assert (Va : b64_val (b64_char (a / 4)) = Some (a / 4)) by (apply b64_val_char; lia).
+    assert (Vb : b64_val (b64_char ((a mod 4) * 16 + b / 16)) = Some ((a mod 4) * 16 + b / 16))
+      by (apply b64_val_char; lia).
+    assert (Vc : b64_val (b64_char ((b mod 16) * 4 + c / 64)) = Some ((b mod 16) * 4 + c / 64))
+      by (apply b64_val_char; lia).
+    assert (Vd : b64_val (b64_char (c mod 64)) = Some (c mod 64)) by (apply b64_val_char; lia).
+    assert (Ea : (a / 4) * 4 + ((a mod 4) * 16 + b / 16) / 16 = a) by lia.
+    assert (Eb : (((a mod 4) * 16 + b / 16) mod 16) * 16 + ((b mod 16) * 4 + c / 64) / 4 = b) by lia.
+    assert (Ec : (((b mod 16) * 4 + c / 64) mod 4) * 64 + c mod 64 = c) by lia.
+    cbn [encode]. destruct r as [|a' r'].
+    + cbn [encode app]. rewrite (decode_full _ _ _ _ _ _ _ _ Va Vb Vc Vd), Ea, Eb, Ec. reflexivity.
+    + destruct (encode_cons a' r') as [t Et]. rewrite Et. cbn [app]. rewrite decode_cons4, <- Et.
+      rewrite Va, Vb, Vc, Vd, (IH Hr), Ea, Eb, Ec. reflexivity.
+Qed.
+
+Lemma C16_decode_inverts_encode_proof : forall bs,
+  bytesb bs = true -> base64_to_hex (encode bs) = DecOk bs.
+Proof. intros bs Hb. apply decode_model, decode_encode, Hb. Qed.
+
+Example C16_decode_nonvacuous :
+  bytesb [77; 97; 110; 255; 0] = true /\
+  base64_to_hex (encode [77; 97; 110; 255; 0]) = DecOk [77; 97; 110; 255; 0].
+Proof. split; vm_compute; reflexivity. Qed.
+
+(* ------------------------------------------------------------------ *)
+(* 6. the validator                                                    *)
+
+Lemma valid_fold_none s : fold_left valid_step s None = None.
+Proof. induction s as [|c s IH]; [reflexivity|exact IH]. Qed.
+
+Lemma valid_step_0 c :
+  valid_step (Some 0) c = if c =? 61 then Some 1 else if is_base64 c then Some 0 else None.
+Proof. unfold valid_step. destruct (c =? 61), (is_base64 c); reflexivity. Qed.
+Lemma valid_step_1 c : valid_step (Some 1) c = if c =? 61 then Some 2 else None.
+Proof. unfold valid_step. destruct (c =? 61), (is_base64 c); reflexivity. Qed.
+Lemma valid_step_2 c : valid_step (Some 2) c = None.
+Proof. unfold valid_step. destruct (c =? 61), (is_base64 c); reflexivity. Qed.
+
+Lemma valid_fold_2 s : fold_left valid_step s (Some 2) = Some 2 <-> s = [].
+Proof.
+  destruct s as [|c s]; [split; reflexivity|]. cbn [fold_left].
+  rewrite valid_step_2, valid_fold_none. split; discriminate.
+Qed.
+
+Lemma valid_fold_1 s : fold_left valid_step s (Some 1) = Some 2 <-> s = [61].
+Proof.
+  destruct s as [|c s]; [split; discriminate|]. cbn [fold_left]. rewrite valid_step_1.
+  destruct (c =? 61) eqn:E.
+  - apply N.eqb_eq in E. subst c. rewrite valid_fold_2. split.
+    + intros ->. reflexivity.
+    + intros H. injection H as ->. reflexivity.
+  - rewrite valid_fold_none. apply N.eqb_neq in E. split; [discriminate|].
+    intros H. injection H as H _. contradiction.
+Qed.
+
+Lemma valid_fold_0 s :
+  fold_left valid_step s (Some 0) = Some 2 <->
+  exists l, s = l ++ [61; 61] /\ forallb is_base64 l = true.
+Proof.
+  induction s as [|c s IH].
+  - split; [discriminate|]. intros [l [E _]]. destruct l; discriminate E.
+  - cbn [fold_left]. rewrite valid_step_0. destruct (c =? 61) eqn:E.
+    + apply N.eqb_eq in E. subst c. rewrite valid_fold_1. split.
+      * intros ->. exists []. split; reflexivity.
+      * intros [l [El Fl]]. destruct l as [|x l].
+        -- injection El as ->. reflexivity.
+        -- injection El as <- _. discriminate Fl.
+    + apply N.eqb_neq in E. destruct (is_base64 c) eqn:B.
+      * rewrite IH. split.
+        -- intros [l [El Fl]]. exists (c :: l). split; [rewrite El; reflexivity|].
+           cbn [forallb]. rewrite B, Fl. reflexivity.
+        -- intros [l [El Fl]]. destruct l as [|x l].
+           ++ injection El as El _. contradiction.
+           ++ injection El as <- El. cbn [forallb] in Fl. apply andb_true_iff in Fl.
+              exists l. split; [exact El|apply Fl].
+      * rewrite valid_fold_none. split; [discriminate|].
+        intros [l [El Fl]]. destruct l as [|x l].
+        -- injection El as El _. contradiction.
+        -- injection El as <- _. cbn [forallb] in Fl. rewrite B in Fl. discriminate Fl.
+Qed.
+
+Lemma is_valid_len s :
+  is_valid_b64 s = true <-> length s = 24%nat /\ fold_left valid_step s (Some 0) = Some 2.
+Proof.
+  split.
+  - unfold is_valid_b64. intros H. cbv zeta in H.
+    remember (N.of_nat (length s)) as len eqn:Elen.
+    destruct (negb (len mod 4 =? 0)) eqn:E1; [discriminate H|].
+    destruct (negb (len / 4 * 3 - 2 =? 16) || (len / 4 * 3 <? 2)) eqn:E2; [discriminate H|].
+    apply negb_false_iff, N.eqb_eq in E1. apply orb_false_iff in E2. destruct E2 as [E2 E3].
+    apply negb_false_iff, N.eqb_eq in E2. apply N.ltb_ge in E3.
+    split; [lia|].
+    destruct (fold_left valid_step s (Some 0)) as [t|]; [|discriminate H].
+    apply N.eqb_eq in H. now subst t.
+  - intros [L F]. unfold is_valid_b64. rewrite L, F. reflexivity.
+Qed.
+
+Lemma is_valid_shape s :
+  is_valid_b64 s = true <->
+  length s = 24%nat /\ exists l, s = l ++ [61; 61] /\ forallb is_base64 l = true.
+Proof. rewrite is_valid_len, valid_fold_0. reflexivity. Qed.
+
+(* texts of the accepted shape decode, to 3n+1 bytes *)
+Lemma shape_decodes n : forall l,
+  length l = (4 * n + 2)%nat -> forallb is_base64 l = true ->
+  exists k, decode (l ++ [61; 61]) = Some k /\ length k = (3 * n + 1)%nat.
+Proof.
+  induction n as [|n IH]; intros l L F.
+  - destruct l as [|a [|b [|c l]]]; try discriminate L.
+    cbn [forallb] in F. apply andb_true_iff in F. destruct F as [Fa F].
+    apply andb_true_iff in F. destruct F as [Fb _].
+    apply is_base64_iff in Fa. destruct Fa as [a' Va].
+    apply is_base64_iff in Fb. destruct Fb as [b' Vb].
+    cbn [app]. rewrite (decode_pad2 _ _ _ _ Va Vb).
+    eexists. split; reflexivity.
+  - destruct l as [|a [|b [|c [|d r]]]]; try (cbn [length] in L; lia).
+    cbn [length] in L. assert (Lr : length r = (4 * n + 2)%nat) by lia.
+    cbn [forallb] in F. apply andb_true_iff in F. destruct F as [Fa F].
+    apply andb_true_iff in F. destruct F as [Fb F].
+    apply andb_true_iff in F. destruct F as [Fc F].
+    apply andb_true_iff in F. destruct F as [Fd Fr].
+    apply is_base64_iff in Fa. destruct Fa as [a' Va].
+    apply is_base64_iff in Fb. destruct Fb as [b' Vb].
+    apply is_base64_iff in Fc. destruct Fc as [c' Vc].
+    apply is_base64_iff in Fd. destruct Fd as [d' Vd].
+    destruct (IH r Lr Fr) as [t [Dt Lt]].
+    destruct r as [|e r]; [cbn [length] in Lr; lia|].
+    cbn [app]. rewrite decode_cons4, Va, Vb, Vc, Vd.
+    change (e :: r ++ [61; 61]) with ((e :: r) ++ [61; 61]). rewrite Dt.
+    eexists. split; [reflexivity|]. cbn [length app]. lia.
+Qed.
+
+(* texts that decode to 3n+1 bytes have the accepted shape *)
+Lemma decodes_shape s : forall k,
+  decode s = Some k -> (length k mod 3 = 1)%nat ->
+  exists l, s = l ++ [61; 61] /\ forallb is_base64 l = true.
+Proof.
+  induction s as [|a|a b|a b c|w x y z r IH] using list_ind4; intros k H M.
+  - injection H as <-. discriminate M.
+  - discriminate H.
+  - discriminate H.
+  - discriminate H.
+  - destruct r as [|a r].
+    + clear IH. cbn [decode] in H. unfold pad_char in H.
+      destruct (b64_val w) as [w'|] eqn:Hw; [|discriminate H].
+      destruct (b64_val x) as [x'|] eqn:Hx; [|discriminate H].
+      destruct ((y =? 61) && (z =? 61)) eqn:Epad.
+      * apply andb_true_iff in Epad. destruct Epad as [Ey Ez].
+        apply N.eqb_eq in Ey. apply N.eqb_eq in Ez. subst y z.
+        exists [w; x]. split; [reflexivity|]. cbn [forallb].
+        rewrite !is_base64_val, Hw, Hx. reflexivity.
+      * destruct (b64_val y) as [y'|] eqn:Hy; [|discriminate H].
+        destruct (z =? 61).
+        -- injection H as <-. discriminate M.
+        -- destruct (b64_val z) as [z'|]; [|discriminate H]. injection H as <-. discriminate M.
+    + rewrite decode_cons4 in H.
+      destruct (b64_val w) as [w'|] eqn:Hw; [|discriminate H].
+      destruct (b64_val x) as [x'|] eqn:Hx; [|discriminate H].
+      destruct (b64_val y) as [y'|] eqn:Hy; [|discriminate H].
+      destruct (b64_val z) as [z'|] eqn:Hz; [|discriminate H].
+      destruct (decode (a :: r)) as [t|] eqn:Hr; [|discriminate H].
+      injection H as <-.
+      assert (Mt : (length t mod 3 = 1)%nat).
+      { cbn [length app] in M. lia. }
+      destruct (IH t eq_refl Mt) as [l [El Fl]].
+      exists (w :: x :: y :: z :: l). split; [rewrite El; reflexivity|].
+      cbn [forallb]. rewrite !is_base64_val, Hw, Hx, Hy, Hz. exact Fl.
+Qed.
+
+(* ------------------------------------------------------------------ *)
+(* 7. the required lemmas                                              *)
+
+Lemma C16_validator_exact_proof : forall s,
+  is_valid_b64 s = true <->
+  (length s = 24%nat /\ exists k, decode s = Some k /\ length k = 16%nat).
+Proof.
+  intros s. rewrite is_valid_shape. split.
+  - intros [L [l [E F]]]. split; [exact L|]. subst s.
+    rewrite app_length in L. cbn [length] in L.
+    assert (Ll : length l = (4 * 5 + 2)%nat) by lia.
+    destruct (shape_decodes 5 l Ll F) as [k [D Lk]]. exists k. split; [exact D|exact Lk].
+  - intros [L [k [D Lk]]]. split; [exact L|].
+    apply (decodes_shape s k D). rewrite Lk. reflexivity.
+Qed.
+
+Example C16_validator_nonvacuous :
+  let s := [84; 87; 70; 117; 84; 87; 70; 117; 84; 87; 70; 117; 84; 87; 70; 117;
+            84; 87; 70; 117; 47; 119; 61; 61] in
+  is_valid_b64 s = true /\ length s = 24%nat /\
+  decode s = Some [77; 97; 110; 77; 97; 110; 77; 97; 110; 77; 97; 110; 77; 97; 110; 255].
+Proof. repeat split; vm_compute; reflexivity. Qed.
+
+Lemma C16_accepted_key_fits_buffer_proof : forall s,
+  is_valid_b64 s = true ->
+  exists k, get_key s = KeyOk k /\ length k = 16%nat /\ decode s = Some k.
+Proof.
+  intros s H. apply C16_validator_exact_proof in H. destruct H as [L [k [D Lk]]].
+  exists k. split; [|split; [exact Lk|exact D]].
+  unfold get_key. rewrite firstn_all2 by (rewrite L; apply Nat.le_refl).
+  rewrite (decode_model s k D), Lk. cbn [Nat.leb Nat.sub zeros repeat].
+  rewrite app_nil_r. reflexivity.
+Qed.
+
+Example C16_accepted_key_nonvacuous :
+  let s := [84; 87; 70; 117; 84; 87; 70; 117; 84; 87; 70; 117; 84; 87; 70; 117;
+            84; 87; 70; 117; 47; 119; 61; 61] in
+  is_valid_b64 s = true /\
+  get_key s = KeyOk [77; 97; 110; 77; 97; 110; 77; 97; 110; 77; 97; 110; 77; 97; 110; 255].
+Proof. split; vm_compute; reflexivity. Qed.
+
+Lemma encode_length bs : length (encode bs) = (4 * ((length bs + 2) / 3))%nat.
+Proof.
+  induction bs as [|a|a b|a b c r IH] using list_ind3; try reflexivity.
+  cbn [encode length app]. rewrite IH.
+  replace (S (S (S (length r))) + 2)%nat with (1 * 3 + (length r + 2))%nat by lia.
+  rewrite Nat.div_add_l by discriminate. lia.
+Qed.
+
+Lemma C16_printed_key_is_accepted_proof : forall k,
+  bytesb k = true -> length k = 16%nat ->
+  hex_to_base64 k = encode k ++ [0%N] /\
+  is_valid_b64 (encode k) = true /\ get_key (encode k) = KeyOk k.
+Proof.
+  intros k Hb Lk.
+  assert (Le : length (encode k) = 24%nat) by (rewrite encode_length, Lk; reflexivity).
+  pose proof (decode_encode k Hb) as D.
+  split; [apply C16_encode_is_rfc4648_proof, Hb|]. split.
+  - apply C16_validator_exact_proof. split; [exact Le|]. exists k. split; [exact D|exact Lk].
+  - unfold get_key. rewrite firstn_all2 by (rewrite Le; apply Nat.le_refl).
+    rewrite (decode_model _ k D), Lk. cbn [Nat.leb Nat.sub zeros repeat].
+    rewrite app_nil_r. reflexivity.
+Qed.
+
+Example C16_printed_key_nonvacuous :
+  let k := [0; 1; 2; 3; 4; 5; 250; 251; 252; 253; 254; 255; 16; 32; 64; 128] in
+  bytesb k = true /\ length k = 16%nat /\
+  is_valid_b64 (encode k) = true /\ get_key (encode k) = KeyOk k.
+Proof. repeat split; vm_compute; reflexivity. Qed.
